@@ -154,7 +154,10 @@ static void compress_base (int b)
 
 /* ------------------------------------------------------------ mode=long item table */
 typedef struct { int fmt; const char *tpl; int kind; long a, b; } LongItem;   /* '@' in tpl is replaced by the generated string */
-enum { G_NAME, G_NUM, G_SIGNS, G_CTRL, G_LINE };
+enum { G_NAME, G_NUM, G_SIGNS, G_CTRL, G_LINE, G_MANY };
+/* many rows / columns: the readers' tables start at 100 entries and double */
+static const long many_cnt[] = { 99, 100, 101, 199, 200, 201, 399, 400, 401 };
+#define NMANYPAT 4
 static LongItem *g_long; static long n_long;
 static const long name_len[] = { 126, 127, 128, 255, 256, 131070, 131071, 131072, 131073 };
 static const int num_dig[] = { 1, 17, 40, 400, 4000 };
@@ -209,6 +212,7 @@ static void long_build (void)
 	for (int t = 0; t < COUNT (ts_lp); t++) for (int s = 0; s < COUNT (sign_runs); s++) long_add (F_LP, ts_lp[t], G_SIGNS, s, 0);
 	for (int f = 0; f < 3; f++) for (int t = 0; t < C[f].n; t++) for (int c = 0; c < COUNT (ctrl_bytes); c++) long_add (C[f].fmt, C[f].t[t], G_CTRL, ctrl_bytes[c], 0);
 	for (int f = 0; f < 3; f++) for (int s = 0; s < NLINE; s++) long_add (f, NULL, G_LINE, s, 0);
+	for (int f = 0; f < 2; f++) for (int c = 0; c < COUNT (many_cnt); c++) for (int q = 0; q < NMANYPAT; q++) long_add (f == 0 ? F_LP : F_MPS, NULL, G_MANY, many_cnt[c], q);
 }
 static void gen_number (Buf * o, int digits, int form)
 {
@@ -255,6 +259,32 @@ static void gen_line (Buf * o, int fmt, int shape, char *what, size_t wl)
 	}
 	b_str (o, tail);
 }
+/* k rows (or columns) so that the k-th entry lands on a table boundary; pattern 0: rows without names (LP; MPS rows always carry one),
+ * 1: all rows named, 2: only the last row unnamed, 3: k columns in one row */
+static void gen_many (Buf * o, int fmt, long k, int pat, char *what, size_t wl)
+{
+	static const char *pn[NMANYPAT] = { "rows without names", "named rows", "named rows, the last one without a name", "columns" };
+	char t[96];
+	snprintf (what, wl, "%ld %s", k, pn[pat]);
+	if (fmt == F_LP) {
+		b_str (o, "min x\nst\n");
+		if (pat == 3) { b_str (o, "c1: x"); for (long i = 1; i < k; i++) { snprintf (t, sizeof t, " + v%ld%s", i, i % 8 == 0 ? "\n" : ""); b_str (o, t); } b_str (o, " >= 1\n"); }
+		else for (long i = 1; i <= k; i++) {
+			if (pat == 0 || (pat == 2 && i == k)) snprintf (t, sizeof t, " x >= -%ld\n", i); else snprintf (t, sizeof t, "r%ld: x >= -%ld\n", i, i);
+			b_str (o, t);
+		}
+		b_str (o, "end\n");
+	} else {
+		b_str (o, "NAME many\nROWS\n N obj\n");
+		if (pat == 3) b_str (o, " G r1\n"); else for (long i = 1; i <= k; i++) { snprintf (t, sizeof t, " G r%ld\n", i); b_str (o, t); }
+		b_str (o, "COLUMNS\n");
+		if (pat == 3) for (long i = 1; i <= k; i++) { snprintf (t, sizeof t, " v%ld obj 1 r1 1\n", i); b_str (o, t); }
+		else { b_str (o, " x obj 1\n"); for (long i = 1; i <= k; i++) { snprintf (t, sizeof t, " x r%ld 1\n", i); b_str (o, t); } }
+		b_str (o, "RHS\n");
+		if (pat == 3) b_str (o, " RHS r1 1\n"); else for (long i = 1; i <= k; i++) { snprintf (t, sizeof t, " RHS r%ld -%ld\n", i, i); b_str (o, t); }
+		b_str (o, "ENDATA\n");
+	}
+}
 static int gen_long (long item)
 {
 	const LongItem *it = &g_long[item]; Buf g = { 0, 0, 0 }; char what[120] = "";
@@ -263,6 +293,7 @@ static int gen_long (long item)
 	case G_NUM: gen_number (&g, (int) it->a, (int) it->b); snprintf (what, sizeof what, "number form %ld with %ld-digit strings (%.40s%s)", it->b, it->a, (char *) g.d, g.n > 40 ? "..." : ""); break;
 	case G_SIGNS: if (sign_runs[it->a][0] == '*') b_rep (&g, "+ - ", 500); else b_str (&g, sign_runs[it->a]); snprintf (what, sizeof what, "sign run #%ld", it->a); break;
 	case G_CTRL: b_fill (&g, (int) it->a, 1); snprintf (what, sizeof what, "control byte 0x%02lx", it->a); break;
+	case G_MANY: gen_many (&g_in, it->fmt, it->a, (int) it->b, what, sizeof what); break;
 	default: gen_line (&g_in, it->fmt, (int) it->a, what, sizeof what); break;
 	}
 	if (it->tpl) for (const char *s = it->tpl; *s; s++) { if (*s == '@') b_add (&g_in, g.d, g.n); else b_add (&g_in, s, 1); }
